@@ -319,7 +319,8 @@ func (h *ipv6HeaderTLVOption) serializeTo(data []byte, fixLengths bool, dryrun b
 	if !dryrun {
 		data[0] = h.OptionType
 		data[1] = h.OptionLength
-		copy(data[2:], h.OptionData)
+		n := copy(data[2:length], h.OptionData)
+		copy(data[2+n:length], lotsOfZeros[:])
 	}
 	return length
 }
